@@ -103,6 +103,9 @@ type TierCfg struct {
 	Second   []string       `json:"second_solvers"`
 	Solver   string         `json:"solver"`
 	SolverMs int            `json:"solver_ms"`
+	// NoFastPath sends every feasibility and assertion question to the SMT solver
+	// instead of deciding single-variable conditions over declared finite domains.
+	NoFastPath bool `json:"no_fastpath"`
 }
 
 type ExtraFile struct {
